@@ -824,7 +824,10 @@ class Gen(object):
         def value_for(sh):
             # never a direct view of this buffer: writing a view of a slot back into
             # the buffer is an aliased form no documented idiom uses
-            no_alias = None if (ALLOW_ALIASED_WRITES and rng.random() < 0.5) else buf
+            # (one-dimensional buffers only: NumPy itself resolves an overlapping column-into-row
+            # assignment of a 2-D array differently for plain arrays and for the (D, P, ...) data of
+            # a UTPM, so such a program means different things for different operand kinds)
+            no_alias = None if (ALLOW_ALIASED_WRITES and not two_d and rng.random() < 0.5) else buf
             if sh == ():
                 return self.scalar_expr(not_view_of=no_alias)
             v = self.pick_reg(lambda q: q.sh == sh and (no_alias is None or q.root != buf))
